@@ -143,10 +143,19 @@ def run(ctx):
                      "produces valid UTF-8 only")
     from vlib import storage
     storage.run_c10(ctx)
+    # truthfulness of size / hash for files that change while being read: the real binary with a deterministic concurrent writer
+    from vlib import dynrun, build
+    build.ensure_vsb()
+    dynrun.sweep(ctx, ctx.rng, 400 if ctx.tier == "thorough" else 40, {"C10"})
+    ctx.notes.append("files changing during the run: %s scheduled concurrent-writer runs (vlib/dynrun.py), clauses 'entries and lines correspond in order', "
+                     "'the first size bytes of a unique entry hash to hash', 'an extern entry is empty'" % (400 if ctx.tier == "thorough" else 40))
     ctx.assumptions += ["zstd and tar crates / python tarfile implement the formats (decodability with standard tools is observed, not proved)"]
 
 
 def replay(ctx, doc):
+    if "rules" in doc:
+        from vlib import dynrun
+        return dynrun.replay_case(ctx, doc, {"C10"})
     from vlib import impl, model
     c = sexp.loads(doc.get("case") or doc.get("first_differing_case"))
     r = impl.run_lines([c])[0]
